@@ -104,6 +104,16 @@ func init() {
 
 		// ---- time ----
 		"time.Sleep": func(fr *frame, a []value) value { fr.i.yield(); return nil },
+		// Duration -> float64 seconds: used by go-f3 only to feed metrics and
+		// debug output (both opaque); a symbolic duration yields 0 instead of
+		// forcing a case split (recorded as a stub in the evidence).
+		"(time.Duration).Seconds": func(fr *frame, a []value) value {
+			if isSym(a[0]) {
+				return float64(0)
+			}
+			d := asInt64(a[0])
+			return float64(d/1e9) + float64(d%1e9)/1e9
+		},
 		"time.now":   func(fr *frame, a []value) value { return tuple{int64(1_700_000_000), int32(0), int64(1_000_000)} },
 		"time.runtimeNano": func(fr *frame, a []value) value { return int64(1_000_000) },
 
